@@ -53,6 +53,9 @@
 			   blocking xcm_accept(); the connection arrives afterwards, from a forked helper process */
 #define F_CTLCLI2 64	/* with F_CTLCLI: a second control client on the same socket (both attached when it is closed) */
 #define F_NOTRAFFIC 32
+#define F_HANDOVER 256	/* at the fork point the roles are swapped: the process that created the sockets calls xcm_cleanup()
+			   on all of them, the forked child owns them from then on, uses them and closes them (a
+			   fork-per-connection server): files and descriptors must be gone all the same */
 
 struct cfg {
     int x;
@@ -71,6 +74,7 @@ static int tb_over;
 static int cur_x, cur_n;
 static const char *cur_mode = "owner";
 static int child_pipe = -1;	/* >= 0: this process is C */
+static int handover_owner;	/* this process is C and owns the sockets (F_HANDOVER) */
 
 struct line {
     const char *ev, *op, *tp, *st, *atp, *call, *p, *det;
@@ -723,8 +727,8 @@ static void final_checks(const char *ev_name)
     drain();
     fd_snapshot(&now_tab);
     int nd = fd_compare(&base_tab, &now_tab, fdet, sizeof(fdet));
-    int nf = child_pipe >= 0 ? 0 : files_now(ndet, sizeof(ndet));
-    if (child_pipe >= 0)
+    int nf = child_pipe >= 0 && !handover_owner ? 0 : files_now(ndet, sizeof(ndet));
+    if (child_pipe >= 0 && !handover_owner)
 	ndet[0] = '\0';
     long leak = heap_check(hdet, sizeof(hdet));
     ls_log_drop();	/* reading the report used harness descriptors that are gone again */
@@ -739,8 +743,116 @@ static void final_checks(const char *ev_name)
     emit(&l);
 }
 
+/* descriptors of the harness that are open now (raw listeners, pipes) belong to the baseline of the process that
+   goes on alone after a fork */
+static void rebase(int keep1, int keep2)
+{
+    fd_snapshot(&now_tab);
+    for (int i = 0; i < now_tab.n; i++)
+	if (now_tab.e[i].fd != ctl_cli && ls_is_harness(now_tab.e[i].fd) && fd_find(&base_tab, now_tab.e[i].fd) == NULL &&
+	    base_tab.n < 4096)
+	    base_tab.e[base_tab.n++] = now_tab.e[i];
+    int keep[2] = { keep1, keep2 };
+    for (int k = 0; k < 2; k++)
+	if (keep[k] >= 0 && fd_find(&base_tab, keep[k]) == NULL && base_tab.n < 4096) {
+	    char lp[64];
+	    struct fdent *fe = &base_tab.e[base_tab.n++];
+	    fe->fd = keep[k];
+	    snprintf(lp, sizeof(lp), "/proc/self/fd/%d", keep[k]);
+	    ssize_t rl = readlink(lp, fe->tgt, sizeof(fe->tgt) - 1);
+	    fe->tgt[rl < 0 ? 0 : rl] = '\0';
+	}
+}
+
+/* F_HANDOVER: P cleans up (the lines of mode "child" are its own), C carries on as the owner and its lines, which follow
+   P's in the trace, come through the pipe; C starts only when P is done, so that the order of the trace is the order
+   of the events */
+static void do_handover(const struct cfg *c)
+{
+    int pfd[2], go[2];
+    drain();
+    if (pipe(pfd) < 0 || pipe(go) < 0)
+	_exit(74);
+    ls_note("hopen", pfd[0], 0, pfd[0], 0);
+    ls_note("hopen", pfd[1], 0, pfd[1], 0);
+    ls_note("hopen", go[0], 0, go[0], 0);
+    ls_note("hopen", go[1], 0, go[1], 0);
+    drain();
+    struct line l = L0;
+    l.ev = "fork";
+    l.v1 = c->forkpt;
+    emit(&l);
+    size_t mark = tbn;
+    pid_t pid = fork();
+    if (pid < 0)
+	_exit(75);
+    if (pid == 0) {
+	/* C: the owner from now on */
+	child_pipe = pfd[1];
+	handover_owner = 1;
+	tb_child_from = mark;
+	cur_n += 5000;
+	ls_real_close(pfd[0]);
+	ls_real_close(go[1]);
+	char b;
+	while (read(go[0], &b, 1) < 0 && errno == EINTR)
+	    ;
+	ls_real_close(go[0]);
+	rebase(pfd[1], -1);
+	return;
+    }
+    ls_real_close(pfd[1]);
+    ls_note("close", pfd[1], 0, 0, 0);
+    ls_real_close(go[0]);
+    ls_note("close", go[0], 0, 0, 0);
+    rebase(pfd[0], go[1]);
+    cur_mode = "child";
+    ls_plan(0, 0, 0);
+    ls_plan(1, 0, 0);
+    ls_decoy(false);
+    for (int h = 1; h < MAXH; h++)
+	api_cleanup(h);
+    final_checks("childend");
+    cur_mode = "owner";
+    l = L0;
+    l.ev = "childdone";
+    l.v1 = 0;
+    emit(&l);
+    drain();
+    if (write(go[1], "g", 1) < 0)
+	_exit(76);
+    ls_real_close(go[1]);
+    for (;;) {
+	if (tbn + 65536 > TB_CAP) {
+	    tb_over = 1;
+	    break;
+	}
+	ssize_t r = read(pfd[0], tb + tbn, 65536);
+	if (r < 0 && errno == EINTR)
+	    continue;
+	if (r <= 0)
+	    break;
+	tbn += (size_t)r;
+    }
+    ls_real_close(pfd[0]);
+    int st = 0;
+    waitpid(pid, &st, 0);
+    if (!(WIFEXITED(st) && WEXITSTATUS(st) == 0)) {
+	l = L0;
+	l.ev = "abort";
+	l.v1 = WIFEXITED(st) ? WEXITSTATUS(st) : 1000 + WTERMSIG(st);
+	l.det = "the process that took the sockets over died";
+	emit(&l);
+    }
+    finish_process();
+}
+
 static void do_fork(const struct cfg *c, int hc, int ha)
 {
+    if (c->flags & F_HANDOVER) {
+	do_handover(c);
+	return;
+    }
     int pfd[2];
     drain();
     if (pipe(pfd) < 0)
